@@ -182,6 +182,47 @@ func (env *SpecEnv) Eval(e SpecExpr) SpecVal {
 			return SpecVal{T: Not(env.EvalBool(x.X))}
 		case "-":
 			return SpecVal{T: App("-", SInt, env.Eval(x.X).T)}
+		case "&":
+			// address of a field of a pointed-to struct: &p.f (possibly through nested struct fields)
+			sel, ok := x.X.(SSel)
+			if !ok {
+				specFail("& is supported on field selectors only")
+			}
+			var names []string
+			cur := SpecExpr(sel)
+			var baseV SpecVal
+			for {
+				s, isSel := cur.(SSel)
+				if !isSel {
+					specFail("&: no pointer base found")
+				}
+				names = append([]string{s.Name}, names...)
+				b := env.Eval(s.X)
+				if _, isPtr := derefType(b.Ty); isPtr {
+					baseV = b
+					break
+				}
+				cur = s.X
+			}
+			pt, _ := derefType(baseV.Ty)
+			p := &Ptr{Kind: PHeap, Ref: baseV.T, ObjT: pt, T: pt}
+			ct := pt
+			for _, n := range names {
+				f, idx := lookupFieldAnyPkg(ct, n)
+				if f == nil {
+					specFail("&: no field %s in %v", n, ct)
+				}
+				for _, i := range idx {
+					si := fx.tc.StructOf(ct)
+					fi := si.byIdx[i]
+					if fi == nil {
+						specFail("&: field %s of %v is not modelled", n, ct)
+					}
+					p = p.extend(Sel{SI: si, Field: fi}, fi.Type)
+					ct = fi.Type
+				}
+			}
+			return SpecVal{T: fx.PtrTerm(p), Ty: types.NewPointer(ct)}
 		case "*":
 			v := env.Eval(x.X)
 			pt, ok := derefType(v.Ty)
@@ -206,6 +247,20 @@ func (env *SpecEnv) Eval(e SpecExpr) SpecVal {
 		v := env.Eval(x.X)
 		if v.Ty == nil {
 			specFail("slice expression on a non-Go value")
+		}
+		if pt, ok := v.Ty.Underlying().(*types.Pointer); ok {
+			// slice of a pointer to an array: the array object's elements
+			if at, ok := pt.Elem().Underlying().(*types.Array); ok {
+				lo := TZero
+				if x.Lo != nil {
+					lo = env.Eval(x.Lo).T
+				}
+				hi := IntLit(at.Len())
+				if x.Hi != nil {
+					hi = env.Eval(x.Hi).T
+				}
+				return SpecVal{T: App("mk-slice", SSlice, v.T, lo, App("-", SInt, hi, lo), App("-", SInt, IntLit(at.Len()), lo)), Ty: types.NewSlice(at.Elem())}
+			}
 		}
 		if _, ok := v.Ty.Underlying().(*types.Slice); !ok {
 			specFail("slice expression on %v", v.Ty)
